@@ -7,6 +7,7 @@ import (
 	"encoding/json"
 	"flag"
 	"fmt"
+	"io"
 	"reflect"
 	"strings"
 	"testing"
@@ -168,12 +169,73 @@ func TestVerifC17Agree(t *testing.T) {
 			} else {
 				st.Class("doc:mutated")
 			}
+			c17MappingFormats(t, st, tp, doc, g.Muts)
 			depth, sc := verifc17.Shape(doc, tp)
 			if (depth >= 2 && sc) || !valid {
 				st.NonTrivial(fmt.Sprintf("%s | %v | %s", tp, g.Muts, data))
 			}
 		}
 	})
+}
+
+// c17MappingFormats: the mapping-level entry points for the three formats
+// (Unmarshal{Json,Yaml,Toml}{Bytes,Reader}) give the same verdict and deeply equal values
+// on the three renderings of one document; with WithCanonicalKeyFunc(strings.ToLower)
+// passed to all three, a document whose struct keys are lower-cased loads like the
+// exact-case document without the option.
+func c17MappingFormats(t *rapid.T, st *verifkit.Stats, tp *verifc17.Type, doc map[string]any, muts []string) {
+	var opts []mapping.UnmarshalOption
+	canon := rapid.IntRange(0, 2).Draw(t, "canonical") == 0
+	if canon {
+		n := 0
+		doc = verifc17.Recase(doc, tp, strings.ToLower, &n).(map[string]any)
+		opts = append(opts, mapping.WithCanonicalKeyFunc(strings.ToLower))
+	}
+	jb, okj := verifc17.RenderJSON(doc, false)
+	yb, oky := verifc17.RenderYAML(doc)
+	tb, okt := verifc17.RenderTOML(doc)
+	if !okj || !oky || !okt {
+		st.Class(fmt.Sprintf("formats:unrepresentable(json=%v,yaml=%v,toml=%v)", okj, oky, okt))
+		return
+	}
+	reader := rapid.Bool().Draw(t, "reader")
+	dec := func(fb func([]byte, any, ...mapping.UnmarshalOption) error,
+		fr func(io.Reader, any, ...mapping.UnmarshalOption) error, data []byte) c17dec {
+		return c17Decode(tp.RT(), func(b []byte, v any) error {
+			if reader {
+				return fr(bytes.NewReader(b), v, opts...)
+			}
+			return fb(b, v, opts...)
+		}, data)
+	}
+	mj := dec(mapping.UnmarshalJsonBytes, mapping.UnmarshalJsonReader, jb)
+	my := dec(mapping.UnmarshalYamlBytes, mapping.UnmarshalYamlReader, yb)
+	mt := dec(mapping.UnmarshalTomlBytes, mapping.UnmarshalTomlReader, tb)
+	for _, o := range []struct {
+		name string
+		d    c17dec
+		data []byte
+	}{{"YAML", my, yb}, {"TOML", mt, tb}} {
+		var msg string
+		switch {
+		case (mj.err == nil) != (o.d.err == nil):
+			msg = fmt.Sprintf("verdicts differ: %v / %v", mj.err, o.d.err)
+		case mj.err == nil && !reflect.DeepEqual(mj.val.Interface(), o.d.val.Interface()):
+			msg = fmt.Sprintf("values differ: %s / %s", c17Show(mj.val), c17Show(o.d.val))
+		}
+		if msg != "" {
+			t.Fatalf("mapping JSON vs %s (reader=%v canonicalKeyFunc=%v): %s\ntype %s\nmutations %v\nJSON %s\n%s:\n%s",
+				o.name, reader, canon, msg, tp, muts, jb, o.name, o.data)
+		}
+	}
+	if mj.err == nil {
+		st.Class("formats:accept")
+	} else {
+		st.Class("formats:reject")
+	}
+	if canon && len(muts) == 0 && mj.err != nil {
+		t.Fatalf("valid lower-cased document rejected with WithCanonicalKeyFunc(strings.ToLower): %v\ntype %s\nJSON %s", mj.err, tp, jb)
+	}
 }
 
 // ---------------------------------------------------------------- native fuzz target
@@ -341,6 +403,25 @@ var c17FuzzExtra = []string{
 	` {"a" : [ ] } `, `{"a":{}}`, `{"a":""}`, `{"a":"\ud800"}`, `{"a":[[],[[]]]}`, `{"a":0.1000000000000000055511151231257827}`,
 }
 
+// c17HasFloat32Field: some struct field (at any depth) is a float32 or a pointer to one.
+func c17HasFloat32Field(rt reflect.Type) bool {
+	switch rt.Kind() {
+	case reflect.Ptr, reflect.Slice, reflect.Map:
+		return c17HasFloat32Field(rt.Elem())
+	case reflect.Struct:
+		for i := 0; i < rt.NumField(); i++ {
+			ft := rt.Field(i).Type
+			for ft.Kind() == reflect.Ptr {
+				ft = ft.Elem()
+			}
+			if ft.Kind() == reflect.Float32 || c17HasFloat32Field(ft) {
+				return true
+			}
+		}
+	}
+	return false
+}
+
 func c17Fuzzing() bool {
 	f := flag.Lookup("test.fuzz")
 	return f != nil && f.Value.String() != ""
@@ -438,7 +519,13 @@ func FuzzVerifC17Agree(f *testing.F) {
 			st.Class(fmt.Sprintf("skipped(null=%v,dupkey=%v,casevariant=%v)", null, dup, variant))
 			return
 		}
-		class := c17Agree(rt, data, t.Fatalf)
+		fail := t.Fatalf
+		if c17KnownD13 && c17HasFloat32Field(rt) {
+			// known-finding mode: a disagreement on a type with a float32 struct field is
+			// not asserted by the fuzz target (counted as excluded)
+			fail = func(string, ...any) { st.Excluded() }
+		}
+		class := c17Agree(rt, data, fail)
 		st.Class(class)
 		if class == "both-accept" {
 			st.NonTrivial(fmt.Sprintf("%s | fuzz | %s", rt, data))
